@@ -324,6 +324,14 @@ pub fn run(args: &Args) -> Report {
             loop {
                 n += 1;
                 if n % nshards == shard % nshards {
+                    // leaked (dead-peer) handles keep their descriptors: never run into the process limit, an
+                    // exhausted descriptor table makes does_exist() answer false for everything
+                    if rep.execs % 256 == 0 && std::fs::read_dir("/proc/self/fd").map(|d| d.count()).unwrap_or(0) > 12_000 {
+                        rep.inconclusive += 1;
+                        rep.notes.push(format!("descriptor budget used up after {} histories of this shard: the rest of the box was not run", rep.execs));
+                        rep.count("exhaustive_box_cut", 1);
+                        return rep;
+                    }
                     rep.execs += 1;
                     if len == maxlen {
                         rep.nontrivial += 1;
